@@ -743,6 +743,20 @@ fn c05_parser_stream(o: &Opts, cx: &mut Ctx, rng: &mut Rng) {
             cx.fail("corpus", "lexical parser panicked", format!("[{}] {:?}", fm.name, s), "Ok or Err".into(), "PANIC".into(), None);
         }
     }
+    // a custom (non-shipped) format violating the table obligation of the totality theorem (budget brackets :=
+    // truth brackets): the model predicts `&env[3..0]` for "%1%" (Props/C05.v C05_table_obligation_needed)
+    {
+        let mut f = formats()[0].l.clone();
+        f.task.budget_brackets = f.sentence.truth_brackets.clone();
+        let r = guard(|| f.parse("%1%").is_ok());
+        cx.rep.hist.add(format!(
+            "custom-format(ascii, budget brackets := truth brackets) \"%1%\": {}",
+            match r {
+                None => "panic (as the model predicts)",
+                Some(_) => "no panic (THE MODEL PREDICTS A PANIC)",
+            }
+        ));
+    }
     for fm in formats() {
         let v = vocab(fm.l);
         let kw = keywords(fm.l, &v);
